@@ -1,9 +1,169 @@
-(* C19 — signals may be submitted from any thread: none lost, duplicated or reordered. *)
-From Coq Require Import ZArith List.
-From SL Require Import Conc proofs.ConcProofs.
+(* C19 — signals may be submitted from any thread: none lost, duplicated or reordered.
+   Only theorem statements; every proof is [exact] of a lemma in proofs/Conc*.v.
+   Model: Conc.v — threads are program-counter machines, one [step] = one shared access of
+   enqueue_signal / execute_new_loop / close_loop / force_quit / register_signal_source / the dispatching
+   get; [steps sch st] runs a schedule (list of thread ids; the turn of a blocked or finished thread is a
+   stutter).  Every theorem quantifies over ALL programs, any number of threads and EVERY schedule.
+   Thread 0 is the loop thread; [submitters_only] says the others only call enqueue_signal.
+   Modelled, not verified: CPython executes each single access atomically (GIL, queue.Queue's mutex,
+   itertools.count.__next__), sequential consistency, threading.Lock semantics. *)
+From Coq Require Import ZArith List Bool Permutation.
+From SL Require Import Conc proofs.ConcProofs proofs.ConcLocks proofs.ConcRoute proofs.ConcOrder proofs.ConcLive.
 Import ListNotations.
 
+(* 0. stutter-freedom: a schedule and its sub-schedule of enabled turns reach the same state, so the
+      enumeration of stutter-free schedules used by the check (Conc.explore) covers every interleaving *)
 Theorem C19_stutter_free : forall sch st, steps (effective sch st) st = steps sch st.
 Proof. exact steps_stutter_free. Qed.
 
+(* 1. conservation / no duplication.  [places st] lists, with multiplicity, every place a signal can be in:
+      not yet put (still in a thread's program or in flight before its put) ++ held by the loop thread between
+      get() and the put back ++ pending in some queue object ++ dispatched ++ discarded (its submitter read
+      _force_quit = True).  In every reachable state it is a permutation of the submitted signals ... *)
+Theorem C19_conservation : forall progs sch,
+  Permutation (places (steps sch (init progs))) (all_sids progs).
+Proof. exact conservation. Qed.
+
+(*    ... hence, the submitted signals being distinct, no signal is ever in two places: never in two queues,
+      never dispatched twice, never both pending and dispatched *)
+Theorem C19_no_duplication : forall progs sch,
+  NoDup (all_sids progs) -> NoDup (places (steps sch (init progs))).
+Proof. exact no_duplication. Qed.
+
+(* 2. nothing lost — partial: under the hypothesis that the loop thread neither closes a level nor
+      force-quits (finding F10 shows the hypothesis is needed, see C19_lost_at_close_refuted): no pending
+      signal sits in a queue the loop no longer knows, nothing is discarded, and
+      not-yet-put ++ pending-in-live-queues ++ dispatched is a permutation of the submitted signals
+      (for a complete run — every submitter finished, [unput st = []] — dispatched ++ pending-live = submitted) *)
+Theorem C19_all_dispatched_partial : forall progs sch,
+  submitters_only progs -> no_close_quit progs ->
+  let st := steps sch (init progs) in
+  pending_dead st = [] /\ held st = [] /\ h_drop (c_sh st) = [] /\ h_fq (c_sh st) = false /\
+  Permutation (unput st ++ pending_live st ++ h_disp (c_sh st)) (all_sids progs).
+Proof. exact all_dispatched_partial. Qed.
+
+(* 3. per-thread order: if thread t submits s1 before s2 and both were put into the same queue object q
+      (ghost put log: (thread, (queue, (priority, counter, sid)))), then s1 got the smaller counter, and if their
+      priorities are equal and s2 has been dispatched then s1 was dispatched before it *)
+Theorem C19_thread_order : forall progs sch,
+  submitters_only progs -> NoDup (all_sids progs) ->
+  let st := steps sch (init progs) in
+  forall t p a s1 b s2 c q e1 e2,
+    nth_error progs t = Some p -> prog_sids p = a ++ s1 :: b ++ s2 :: c ->
+    In (t, (q, e1)) (plog st) -> e_sid e1 = s1 ->
+    In (t, (q, e2)) (plog st) -> e_sid e2 = s2 ->
+    e_cnt e1 < e_cnt e2 /\
+    (e_prio e1 = e_prio e2 -> In s2 (h_disp (c_sh st)) ->
+     exists d1 d2 d3, h_disp (c_sh st) = d1 ++ s1 :: d2 ++ s2 :: d3).
+Proof. exact thread_order. Qed.
+
+(* 4. routing: thread t holds MainLoop._lock and is about to iterate reversed(_event_queues) = lv for
+      signal s of source o (state st0, reachable).  Whatever all threads do afterwards (any schedule sch):
+      if force_quit has not been called, the submission has completed and some level of lv owned o in st0,
+      then s was put into a level q of lv that owns o, and no level of lv inside q owned o in st0
+      (registrations racing with the routing loop can only move the signal further in, to a level where
+      its source is registered; appends and pops cannot interfere: they need the lock) *)
+Theorem C19_routing : forall progs sch0 sch t prog s o,
+  let st0 := steps sch0 (init progs) in
+  nth_error (c_thr st0) t = Some (mk prog (PE s EMkIter)) -> s_src s = Some o ->
+  let lv := h_evq (c_sh st0) in
+  let src0 := h_src (c_sh st0) in
+  let st := steps sch st0 in
+  forall th, nth_error (c_thr st) t = Some th ->
+  h_fq (c_sh st) = false ->
+  (length (t_prog th) < length prog \/ t_pc th = P0) ->
+  (exists i q, nth_error lv i = Some q /\ has_pair src0 q o = true) ->
+  exists q c i, In (t, (q, (s_prio s, c, s_id s))) (h_putlog (c_sh st)) /\
+    nth_error lv i = Some q /\ has_pair (h_src (c_sh st)) q o = true /\
+    (forall j q', i < j -> nth_error lv j = Some q' -> has_pair src0 q' o = false).
+Proof. exact routing. Qed.
+
+(* 5. no deadlock: in every reachable state either some thread can take a non-stutter step, or every
+      unfinished thread waits in PriorityQueue.get() on an empty queue ... *)
+Theorem C19_no_deadlock : forall progs sch,
+  let st := steps sch (init progs) in
+  (exists t, enabled t st = true) \/
+  (forall t th, nth_error (c_thr st) t = Some th -> finished th = true \/ waiting_get th (c_sh st) = true).
+Proof. exact no_deadlock. Qed.
+
+(*    ... which, when the other threads only submit, can only be the loop thread *)
+Theorem C19_no_deadlock_loop : forall progs sch, submitters_only progs ->
+  let st := steps sch (init progs) in
+  (exists t, enabled t st = true) \/
+  (forall t th, nth_error (c_thr st) t = Some th ->
+     finished th = true \/ (t = 0 /\ waiting_get th (c_sh st) = true)).
+Proof. exact no_deadlock_loop. Qed.
+
+(*    the lock discipline behind it: a thread is at a program point inside `with self._lock` iff it is the
+      holder, for MainLoop._lock and for every EventQueue._lock (acquisition order main -> queue only) *)
+Theorem C19_lock_holders : forall progs sch,
+  minv (steps sch (init progs)) /\ qinv (steps sch (init progs)).
+Proof. intros; split; [apply minv_reach|apply qinv_reach]. Qed.
+
+(* 6. finding F10 — the full "none lost" statement is false when a level is closed concurrently.
+      Loop thread: execute_new_loop(signal 1); close_loop().  Submitter: enqueue_signal(signal 2, source
+      registered nowhere).  Schedule: the loop thread opens the level (20 accesses); the submitter passes the
+      locked routing loop without a match and loads _active_queue = queue 1 for the fallback (14 accesses);
+      the loop thread runs close_loop completely (drain, lock, pop, re-point, unlock: 7 accesses); the
+      submitter puts signal 2 into queue object 1, which is no longer in _event_queues. *)
+Definition f10_progs : list (list action) :=
+  [ [AOpen {| s_id := 1; s_prio := 0; s_src := None |}; AClose];
+    [ASubmit {| s_id := 2; s_prio := 0; s_src := None |}] ].
+Definition f10_sched : list nat := repeat 0 20 ++ repeat 1 14 ++ repeat 0 7 ++ repeat 1 3.
+
+Example C19_lost_at_close_refuted :
+  let st := steps f10_sched (init f10_progs) in
+  forallb finished (c_thr st) = true /\             (* both threads ran to completion *)
+  h_fq (c_sh st) = false /\ unput st = [] /\
+  h_disp (c_sh st) = [1] /\                          (* signal 2 was put but is not dispatched ... *)
+  h_pend (c_sh st) = [(1, (0%Z, 1, 2))] /\           (* ... it sits in queue object 1 ... *)
+  h_evq (c_sh st) = [0] /\ h_active (c_sh st) = 0 /\ (* ... which the loop no longer knows *)
+  pending_live st = [] /\ pending_dead st = [2].
+Proof. vm_compute. repeat split. Qed.
+
+(* the variant with the fallback's put landing between close_loop's drain and its pop (moving the fallback
+   under the lock would not cure it) *)
+Example C19_lost_between_drain_and_pop :
+  let st := steps (repeat 0 20 ++ repeat 1 14 ++ repeat 0 3 ++ repeat 1 3 ++ repeat 0 5) (init f10_progs) in
+  forallb finished (c_thr st) = true /\ h_disp (c_sh st) = [1] /\ pending_dead st = [2].
+Proof. vm_compute. repeat split. Qed.
+
+(* non-vacuity: two submitters x two signals (equal priorities; thread 1's source 7 is registered at the
+   nested level, thread 2's nowhere), the loop thread opens a nested level, registers 7 there and dispatches.
+   The schedule switches inside submissions: thread 2 takes counter 1 of queue 1 for signal 3 and is
+   preempted before its put; thread 1 takes counter 2 and puts signal 1 first (known fact (2): counters taken in
+   one order, puts in the other); thread 2 is preempted again between reading _force_quit and the lock while
+   thread 1 holds it.  Hypotheses of theorems 2 and 3 hold; all signals arrive exactly once, each thread's
+   own in submission order (3 before 4, 1 before 2), the order between threads following the counters. *)
+Definition ex_progs : list (list action) :=
+  [ [AOpen {| s_id := 9; s_prio := 0; s_src := None |}; ARegister 7; ADispatch; ADispatch; ADispatch; ADispatch; ADispatch];
+    [ASubmit {| s_id := 1; s_prio := 0; s_src := Some 7 |}; ASubmit {| s_id := 2; s_prio := 0; s_src := Some 7 |}];
+    [ASubmit {| s_id := 3; s_prio := 0; s_src := None |}; ASubmit {| s_id := 4; s_prio := 0; s_src := None |}] ].
+Definition ex_sched : list nat :=
+  repeat 0 23 ++ repeat 2 15 ++ repeat 1 10 ++ [2] ++ repeat 1 4 ++ [2; 2] ++ repeat 1 6 ++ repeat 2 15 ++ repeat 0 5.
+
+Example C19_example :
+  let st := steps ex_sched (init ex_progs) in
+  NoDup (all_sids ex_progs) /\
+  (forall t p, nth_error ex_progs t = Some p -> t <> 0 -> forallb is_submit p = true) /\
+  (forall t p, nth_error ex_progs t = Some p -> forallb okact p = true) /\
+  forallb finished (c_thr st) = true /\
+  h_disp (c_sh st) = [9; 3; 1; 2; 4] /\ pending st = [] /\ unput st = [] /\
+  map (fun x => (fst x, fst (snd x), e_cnt (snd (snd x)), e_sid (snd (snd x)))) (rev (h_putlog (c_sh st)))
+    = [(0, 1, 0, 9); (1, 1, 2, 1); (2, 1, 1, 3); (1, 1, 3, 2); (2, 1, 4, 4)].
+Proof.
+  split; [vm_compute; repeat constructor; cbn; intuition discriminate|].
+  split; [intros [|[|[|[|t]]]] p H; inversion H; subst; intros; try reflexivity; congruence|].
+  split; [intros [|[|[|[|t]]]] p H; inversion H; subst; reflexivity|].
+  vm_compute. repeat split.
+Qed.
+
 Print Assumptions C19_stutter_free.
+Print Assumptions C19_conservation.
+Print Assumptions C19_no_duplication.
+Print Assumptions C19_all_dispatched_partial.
+Print Assumptions C19_thread_order.
+Print Assumptions C19_routing.
+Print Assumptions C19_no_deadlock.
+Print Assumptions C19_no_deadlock_loop.
+Print Assumptions C19_lock_holders.
